@@ -466,9 +466,13 @@ def run_stage(ctx, st):
                                "model_disagreements": len(mismatches), "oracle_failures": len(oracle_fails),
                                "input_distribution": stats_total}
     known_classes = {k["class"]: k for k in load_known().get(ctx.pid, [])}
+    for other in st.get("known_from", []):
+        # a stage shared with another property also meets that property's recorded findings
+        for k in load_known().get(other, []):
+            known_classes.setdefault(k["class"], k)
     for c, il, msg, kc in oracle_fails:
         if kc is not None and kc in known_classes:
-            ctx.known.append((kc, msg, c))
+            ctx.known.append((kc, msg, c, known_classes[kc].get("property", ctx.pid)))
         else:
             ctx.problems.append(Problem("oracle", name, {"message": msg, "impl": il[:2000],
                                                           "class_not_listed": kc},
@@ -503,11 +507,11 @@ def finish(ctx):
     elif ctx.problems:
         viol = ctx.problems[0]
     seen_known = set()
-    for kc, msg, c in ctx.known:
+    for kc, msg, c, owner in ctx.known:
         if kc in seen_known:
             continue
         seen_known.add(kc)
-        print("KNOWN-FINDING: property=%s class=%s %s (e.g. case: %s)" % (ctx.pid, kc, msg[:200], c[:200]))
+        print("KNOWN-FINDING: property=%s class=%s %s (e.g. case: %s)" % (owner, kc, msg[:200], c[:200]))
     cov = ctx.cov
     cov["rule"] = spec.get("rule", "")
     cov["trusted_base"] = spec.get("trusted_base", [])
